@@ -1,5 +1,6 @@
 import OnetVerif.Model.Util
 import OnetVerif.Model.C10Server
+import OnetVerif.Model.C10Closers
 /-! Model for property C10: closing a server under concurrent traffic.
 
 Three transition systems, one per lock of the source, each with unboundedly many threads and
@@ -777,6 +778,13 @@ def step (d : State) (toks : List String) : State × String :=
       let l := lnRun {} acts
       (d, s!"faults={k} accepted={l.handed} stopped={l.stops == [.returned]} open=0 listening={l.listening}")
     | _, _ => (d, "bad-op")
+  | ["pausegate", script] =>
+    -- a Pause / Unpause history over three receive loops, then `Stop` (`Model/C09Pause.lean`): nobody is left at
+    -- the gate (`c10_stop_is_not_held_at_the_pause_gate`)
+    if !d.threads.isEmpty ∨ !d.core.conns.isEmpty ∨ d.tr ≠ "" then (d, "bad-op") else
+    match C09.pgRun script with
+    | some r => (d, r)
+    | none => (d, "bad-op")
   | ["multi", n, m] =>
     -- one peer holds n connections with the router (both sides dialled, it dialled again, …); m of
     -- them end, one after the other, and are removed from the table; then `Stop`.  The table lists
@@ -828,6 +836,21 @@ def step (d : State) (toks : List String) : State × String :=
       let peer := if d.tr = "tcp" ∧ closed then (if sv.routerUp then "bound" else "free") else "-"
       let client := if closed then (if d.ws.serving then "bound" else "free") else "-"
       (d, s!"peer={peer} client={client} ws-start={if d.ws.start == .returned then "returned" else "blocked"} db={if sv.dbOpen then "open" else "closed"} file={if sv.dbFile then "there" else "gone"}")
+    | none => (d, "bad-op")
+  | ["srvclosedur"] =>
+    -- a delivery is in flight (a processor of the router that does not return), a first `Close` waits in
+    -- `Router.Stop`, a second `Close` is made meanwhile: it waits as well (`Model/C10Closers.lean`); when the processor
+    -- returns both calls return and everything is released (`c10_any_close_return_means_closed`)
+    match d.srv with
+    | some (sv, ov) =>
+      if !sv.routerUp ∨ d.dbBusy then (d, "bad-op") else
+      let t := ccRun false {} [.deliver, .closeCall, .closeCall, .go 0, .go 1]
+      let early := t.closers[1]? == some CcPc.returned
+      let (sv', _) := serverClose (serverClose sv).1
+      let ov' := (ovStep ov .close).getD ov
+      let j := d.ws.stops.length
+      ({ d with srv := some (sv', ov'), ws := wsRun d.ws [.stopCall, .stopLock j, .handshake j, .stopCall, .stopLock (j + 1)] },
+        s!"second-early={early} both=ret")
     | none => (d, "bad-op")
   | ["srvclose"] =>
     match d.srv with
